@@ -471,6 +471,25 @@ class Canon:
             if not used_k and k_ not in vnames:
                 st.target = st.target.elts[1]
                 st.iter = st.iter.args[0]
+        # `for n in ("a", "b"): x = getattr(o, n); B` with n unused in B  ==  `for x in (o.a, o.b): B`
+        # (B does not rebind those attributes of `o`, so reading them up front or one by one is the same)
+        if (isinstance(st, ast.For) and isinstance(st.target, ast.Name) and isinstance(st.iter, (ast.Tuple, ast.List)) and st.iter.elts and not st.orelse
+                and all(isinstance(e, ast.Constant) and isinstance(e.value, str) and e.value.isidentifier() for e in st.iter.elts) and len(st.body) >= 2):
+            h_ = st.body[0]
+            if (isinstance(h_, ast.Assign) and len(h_.targets) == 1 and isinstance(h_.targets[0], ast.Name) and isinstance(h_.value, ast.Call) and isinstance(h_.value.func, ast.Name)
+                    and h_.value.func.id == "getattr" and len(h_.value.args) == 2 and not h_.value.keywords and isinstance(h_.value.args[0], ast.Name)
+                    and isinstance(h_.value.args[1], ast.Name) and h_.value.args[1].id == st.target.id and h_.targets[0].id != st.target.id):
+                n_, o_ = st.target.id, h_.value.args[0].id
+                names_ = {e.value for e in st.iter.elts}
+                rest_ = st.body[1:]
+                uses_n = any(isinstance(x_, ast.Name) and x_.id == n_ for b_ in rest_ for x_ in ast.walk(b_))
+                rebinds = any((isinstance(x_, ast.Attribute) and isinstance(x_.ctx, (ast.Store, ast.Del)) and x_.attr in names_) or (isinstance(x_, ast.Name) and isinstance(x_.ctx, ast.Store) and x_.id == o_)
+                              or (isinstance(x_, ast.Call) and isinstance(x_.func, ast.Name) and x_.func.id in ("setattr", "delattr")) for b_ in rest_ for x_ in ast.walk(b_))
+                if not uses_n and not rebinds:
+                    st.target = ast.copy_location(ast.Name(h_.targets[0].id, ast.Store()), st.target)
+                    st.iter = ast.copy_location(ast.Tuple([ast.copy_location(ast.Attribute(ast.Name(o_, ast.Load()), e.value, ast.Load()), e) for e in st.iter.elts], ast.Load()), st.iter)
+                    st.body = rest_
+                    ast.fix_missing_locations(st)
         return st
 
     def _simple(self, st: ast.stmt) -> ast.stmt:
@@ -560,21 +579,73 @@ class _ExprNorm(ast.NodeTransformer):
             return ast.copy_location(ast.List([inst(node.elt, r) for r in rows], ast.Load()), node)
         return node
 
+    def _items_gens(self, node):
+        """`.. for k in D if .. D[k] ..`  ==  `.. for k, v in D.items() if .. v ..`  (D a name / attribute chain; iterating a
+        mapping yields its keys, and D[k] of a key being iterated is that key's value)."""
+        for g in node.generators:
+            if g.is_async or not isinstance(g.target, ast.Name) or not _alias_expr(g.iter) or isinstance(g.iter, ast.Constant):
+                continue
+            k_, d_ = g.target.id, ast.unparse(g.iter)
+            parts = [x for x in ([getattr(node, "elt", None), getattr(node, "key", None), getattr(node, "value", None)] + [i for g2 in node.generators for i in g2.ifs]) if x is not None]
+            hits = [n for p_ in parts for n in ast.walk(p_) if isinstance(n, ast.Subscript) and isinstance(n.ctx, ast.Load) and isinstance(n.slice, ast.Name) and n.slice.id == k_ and ast.unparse(n.value) == d_]
+            if not hits:
+                continue
+            used = {n.id for n in ast.walk(node) if isinstance(n, ast.Name)}
+            v_ = next(c for c in (k_ + "_held", k_ + "_held2", k_ + "_held3") if c not in used)
+
+            class _Sub(ast.NodeTransformer):
+                def visit_Subscript(s, n):
+                    if isinstance(n.ctx, ast.Load) and isinstance(n.slice, ast.Name) and n.slice.id == k_ and ast.unparse(n.value) == d_:
+                        return ast.copy_location(ast.Name(v_, ast.Load()), n)
+                    return s.generic_visit(n)
+            for fld in ("elt", "key", "value"):
+                if getattr(node, fld, None) is not None:
+                    setattr(node, fld, _Sub().visit(getattr(node, fld)))
+            for g2 in node.generators:
+                g2.ifs = [_Sub().visit(i) for i in g2.ifs]
+            g.target = ast.copy_location(ast.Tuple([ast.Name(k_, ast.Store()), ast.Name(v_, ast.Store())], ast.Store()), g.target)
+            g.iter = ast.copy_location(ast.Call(ast.Attribute(g.iter, "items", ast.Load()), [], []), g.iter)
+            ast.fix_missing_locations(node)
+        return node
+
+    def _splice(self, node):
+        """`[*(a, b), c]` == `[a, b, c]`: a starred display inside a display is its elements."""
+        self.generic_visit(node)
+        if isinstance(node.ctx, ast.Load) and any(isinstance(e, ast.Starred) and isinstance(e.value, (ast.Tuple, ast.List)) for e in node.elts):
+            out = []
+            for e in node.elts:
+                if isinstance(e, ast.Starred) and isinstance(e.value, (ast.Tuple, ast.List)):
+                    out.extend(e.value.elts)
+                else:
+                    out.append(e)
+            node.elts = out
+        return node
+
+    def visit_List(self, node):
+        return self._splice(node)
+
+    def visit_Tuple(self, node):
+        return self._splice(node)
+
+    def visit_Set(self, node):
+        self.generic_visit(node)
+        return node
+
     def visit_ListComp(self, node):
         self.generic_visit(node)
-        return self._unroll_display(self._flatten_gens(node))
+        return self._unroll_display(self._flatten_gens(self._items_gens(node)))
 
     def visit_DictComp(self, node):
         self.generic_visit(node)
-        return self._unroll_display(self._flatten_gens(node))
+        return self._unroll_display(self._flatten_gens(self._items_gens(node)))
 
     def visit_GeneratorExp(self, node):
         self.generic_visit(node)
-        return self._flatten_gens(node)
+        return self._flatten_gens(self._items_gens(node))
 
     def visit_SetComp(self, node):
         self.generic_visit(node)
-        return self._flatten_gens(node)
+        return self._flatten_gens(self._items_gens(node))
 
     def visit_Call(self, node: ast.Call):
         self.generic_visit(node)
@@ -614,7 +685,12 @@ class _ExprNorm(ast.NodeTransformer):
             return ast.copy_location(ast.DictComp(node.args[0].elt.elts[0], node.args[0].elt.elts[1], node.args[0].generators), node)
         # list(<generator expression>) == [<list comprehension>]
         if isinstance(f, ast.Name) and f.id == "list" and len(node.args) == 1 and not node.keywords and isinstance(node.args[0], ast.GeneratorExp):
-            return ast.copy_location(ast.ListComp(node.args[0].elt, node.args[0].generators), node)
+            return self._unroll_display(ast.copy_location(ast.ListComp(node.args[0].elt, node.args[0].generators), node))
+        # tuple(E for x in (a, b)) == (E[a], E[b])
+        if isinstance(f, ast.Name) and f.id == "tuple" and len(node.args) == 1 and not node.keywords and isinstance(node.args[0], (ast.GeneratorExp, ast.ListComp)):
+            disp = self._unroll_display(ast.copy_location(ast.ListComp(node.args[0].elt, node.args[0].generators), node))
+            if isinstance(disp, ast.List):
+                return ast.copy_location(ast.Tuple(disp.elts, ast.Load()), node)
         # isinstance(x, (A,)) == isinstance(x, A)
         if isinstance(f, ast.Name) and f.id in ("isinstance", "issubclass") and len(node.args) == 2 and isinstance(node.args[1], ast.Tuple) and len(node.args[1].elts) == 1 and not isinstance(node.args[1].elts[0], ast.Starred):
             node.args[1] = node.args[1].elts[0]
@@ -1821,6 +1897,14 @@ def canonicalise(tree: ast.Module, ref_funcs: Optional[Set[str]], ref_consts: Op
             if sum(1 for n in ast.walk(tree) if isinstance(n, ast.Name) and n.id == nm and isinstance(n.ctx, ast.Store)) != 1:
                 del consts[nm]
         if consts:
+            # (a new constant used to build another module-level table: `_banned = [*_NAMES, "add"]`)
+            for st in tree.body:
+                if isinstance(st, (ast.Assign, ast.AnnAssign)) and st.value is not None and isinstance(st.value, (ast.List, ast.Tuple, ast.Set, ast.Dict)):
+                    for nm, val in consts.items():
+                        if any(isinstance(n, ast.Name) and n.id == nm and isinstance(n.ctx, ast.Load) for n in ast.walk(st.value)):
+                            hold = ast.Expr(st.value)
+                            _Subst(nm, val).visit(hold)
+                            st.value = ast.fix_missing_locations(_ExprNorm().visit(hold.value))
             for q, cls, fn, _c in funcs:
                 if ".<locals>." in q:
                     continue
